@@ -114,8 +114,8 @@ def run_cases(args):
     # ---- version gate
     running = tuple(int(x) for x in sedpack.__version__.split(".")[:3])
     out["running"] = list(running)
-    for rec in args["versions"]:
-        root = base / f"v{'_'.join(map(str, rec))}"
+    for vi, rec in enumerate(args["versions"]):
+        root = base / f"v{vi}_{'_'.join(map(str, rec))}"
         r = {"recorded": rec}
         try:
             Dataset.create(root, Metadata(description="v", sedpack_version=".".join(map(str, rec))), DatasetStructure(shard_file_type="fb", compression=""))
